@@ -99,6 +99,17 @@ type AtomTable struct {
 	Coded bool
 }
 
+// identCount: the number of identifier-class atoms.
+func (t *AtomTable) identCount() int {
+	n := 0
+	for _, a := range t.Atoms {
+		if a.Fixed == nil && (a.Class == ClsIdent || a.Class == ClsUserName || a.Class == ClsPlainCmd) {
+			n++
+		}
+	}
+	return n
+}
+
 // New creates an atom.
 func (t *AtomTable) New(cls Class, hint, group string, notLits ...string) *Atom {
 	a := &Atom{ID: len(t.Atoms), Class: cls, Hint: hint, Group: group, NotLits: notLits}
